@@ -1,5 +1,6 @@
 import MockeryModel.Config.Sources
 import MockeryLemmas.Merge
+import MockeryModel.Generated.RunFacts
 /-!
 # C08 — Configuration resolves hierarchically; the most specific setting wins
 
@@ -239,6 +240,22 @@ theorem defaults_cover_fallbacks :
     ["all", "dir", "filename", "force-file-write", "formatter", "structname", "pkgname", "recursive",
      "require-template-schema-exists", "template", "template-data", "template-schema"].all
       (fun k => ((defaultsCfg fieldTable).get k).isSome) = true := by decide
+
+/-! ## which level each per-output-file consumer reads (regenerated from `RootApp.Run`) -/
+
+/-- `_partial`: the generator of an output file is handed the *package-level* template,
+template-schema and require-template-schema-exists, the *top-level* formatter, and the overwrite
+guard reads the *package-level* force-file-write – not the value resolved for the mocks sharing
+the file (known findings C08-K1 … C08-K4).  Any further drift of a consumer to another level
+changes this regenerated table and fails here. -/
+theorem consumers_partial :
+    Generated.runGeneratorArgs =
+      ["fileCtx", "interfacesInFile.srcPkg", "interfacesInFile.outFilePath.Parent()",
+       "*packageConfig.Config.Template", "*packageConfig.Config.TemplateSchema",
+       "*packageConfig.Config.RequireTemplateSchemaExists", "remoteTemplateCache",
+       "pkg.Formatter(*r.Config.Formatter)", "packageConfig.Config", "interfacesInFile.outPkgName"] ∧
+    Generated.runOverwriteGuard =
+      "outFileExists && !*packageConfig.Config.ForceFileWrite → return fmt.Errorf(\"outfile exists\")" := by decide
 
 def strOf : Option Val → Option String | some (.s v) => some v | _ => none
 def boolOf : Option Val → Option Bool | some (.b v) => some v | _ => none
